@@ -166,6 +166,7 @@ func (r *Router) handleHTTPRequest(ctx *Context) {
 
 	// matching route
 	route, params, allowed := r.QuickMatch(ctx.Req.Method, path)
+	verifMatched(r, ctx.Req.Method, path, route, params, allowed)
 
 	var handlers HandlersChain
 	if route != nil { // found route
